@@ -226,6 +226,12 @@ class SpecGen:
         if f == 'invoke':
             fn = r.choice([['id'], ['len'], ['inc']])
             a, _ = self.access(t, allow_bad=False)
+            if r.random() < 0.35:
+                # the function is given by a spec and so are the arguments: function first, then the parts left to right; every
+                # sub-spec announces itself, and either may fail with its own class
+                fspec = ['Spec', ['Tuple', [self.next_probe(), r.choice([['Val', {'fn': fn}], ['Val', {'fn': fn}], ['Str', 'zz']])]], []]
+                part = [True, [['Tuple', [self.next_probe(), r.choice([a, a, ['T', 'T', []], ['Fn', ['raise', 'ValueError']]])]]]]
+                return ['Invoke', fspec, [part]]
             part = r.choice([[True, [a]], [True, [['T', 'T', []]]], [False, [['Lit', 3]]], [False, [['Str', 'abc']]]])
             return ['Invoke', ['Fn', fn], [part]]
         if f == 'spec':
